@@ -78,7 +78,10 @@ fn analyze_diagnostic_disable_next_line(
     let file_id = analyzer.file_id;
     let document = analyzer.get_db().get_vfs().get_document(&file_id)?;
     let comment_end_line = document.get_line(comment_range.end())?;
-    let line_range = document.get_line_range(comment_end_line + 1)?;
+    // without a next line the scope ends with the comment's own last line
+    let line_range = document
+        .get_line_range(comment_end_line + 1)
+        .or_else(|| document.get_line_range(comment_end_line))?;
     let valid_range = TextRange::new(comment_range.start(), line_range.end());
 
     let diagnostic_index = analyzer.get_db().get_diagnostic_index_mut();
